@@ -185,6 +185,9 @@ def _run(res, rng, tier, driver, work):
                             "key": {"kind": "wrong-network", "fmt": fmt, "main": kind, "backup": bkind, "got": cls_l},
                             "what": f"start-up loaded '{cls_l}' (main {kind} at {k}/{n}, backup {bkind})",
                             "replay": case})
+        # the same through a real gateway's start_persistence() (threaded flavour, Timer faked; the
+        # asyncio flavour goes through the same safe_load_sensors), on a sample of the cases
+        gateway_sample(res, rng, fmt, main, good, bak_good, p_bak, 25 if tier == "quick" else 300)
     res.exhaustive = True
     res.extra["parser_exception_classes"] = classes
     res.rule = (f"{nfiles} generated networks per format (one built by a real gateway from lines, the others "
@@ -209,6 +212,42 @@ def _run(res, rng, tier, driver, work):
     for c in cases[:2] + cases[200:202]:
         res.sample(c)
     res.sample({"parser exception classes on damaged files": classes})
+
+
+def gateway_sample(res, rng, fmt, main, good, bak_good, p_bak, count):
+    bak = main + ".bak"
+    for _ in range(count):
+        k = rng.randrange(len(good))
+        mdata = rng.choice([good[:k], b"\x00" * len(good), b"", None])
+        bdata = rng.choice([None, bak_good, bak_good[: rng.randrange(len(bak_good))]])
+        pu.put(main, mdata)
+        pu.put(bak, bdata)
+        for p in (pu.tmp_name(main),):
+            pu.put(p, None)
+        with pu.fake_timers() as FT:
+            gw = pu.make_gateway("2.2", persistence_file=main, flavour="sync")
+            exc = None
+            try:
+                gw.start_persistence()
+            except BaseException as e:  # noqa: BLE001
+                exc = type(e).__name__
+            got = pu.project(gw.sensors)
+            want = p_bak if bdata == bak_good else "-"
+            res.evaluations += 1
+            res.count(f"{fmt}:start_persistence")
+            case = {"fmt": fmt, "via": "start_persistence", "main_len": None if mdata is None else len(mdata),
+                    "backup_len": None if bdata is None else len(bdata)}
+            if exc:
+                res.oracle_failures.append({"key": {"kind": "start_persistence-raises", "fmt": fmt, "exc": exc},
+                                            "what": f"start_persistence() raised {exc}", "replay": case})
+            elif got != want:
+                res.oracle_failures.append({"key": {"kind": "start_persistence-wrong-network", "fmt": fmt},
+                                            "what": "start_persistence() loaded neither the intact backup nor nothing",
+                                            "replay": case})
+            elif not (FT.instances and FT.instances[-1].started):
+                res.oracle_failures.append({"key": {"kind": "start_persistence-not-scheduled", "fmt": fmt},
+                                            "what": "start_persistence() did not schedule the periodic save",
+                                            "replay": case})
 
 
 def replay(payload):
